@@ -8,13 +8,68 @@ COMMON_NOTE = ("Trusted: Lean 4.33 kernel; axioms propext/Classical.choice/Quot.
                "Mathlib definitions; the translators (symbolic tracer / table exporter), validated each run by executing the generated Float/Int twin "
                "against the implementation; numpy primitives modelled over the reals (rounding not modelled). ")
 
+TR = "Lean 4 theorems over ℝ about the traced model (regenerated from the Python source each run by the symbolic tracer) + Float-twin correspondence"
 P = {
- 'C01': dict(tech="Lean 4 theorems over ℝ about the traced model of tools/laue (regenerated from source each run) + Float-twin correspondence",
-             text="Machine-checked proofs, for every valid cell and every hkl, that the traced form_a_mat/form_b_mat/cell_volume/sintl/cell_invert/a_to_cell/b_to_cell of both modules satisfy the metric identities; the model is re-traced from /repo on every run and its Float twin is run against the implementation.",
-             note="partial where a theorem is named _partial (see evidence.obligation_names); IEEE rounding not modelled.", ref="DESIGN.md §6 C01"),
+ 'C01': dict(tech=TR,
+             text="Machine-checked proofs, for every valid cell and every (real) hkl, that the traced form_a_mat/form_b_mat/cell_volume/sintl/cell_invert/a_to_cell/b_to_cell of both modules satisfy the metric identities and inverse laws; the model is re-traced from /repo on every run and its Float twin is run against the implementation.",
+             note="IEEE rounding not modelled.", ref="DESIGN.md §6 C01"),
+ 'C02': dict(tech=TR + "; QR step as a parameter with the numpy.linalg.qr contract as hypothesis",
+             text="Theorems for every proper rotation and valid cell: UBI·(U·B·h)=k'h, ubi_to_cell/ubi_to_u/ubi_to_u_b invert u_to_ubi; for ub_to_u_b: for ANY (Q,R) meeting the QR contract the code's sign normalisation yields the unique (rotation, upper-triangular positive) factorisation (existence + uniqueness proved).",
+             note="numpy.linalg.qr is modelled by its contract (QᵀQ=I, R upper triangular, QR=M), asserted on every correspondence case; a Gram–Schmidt Float model + the exact normalisation is compared with the implementation.", ref="DESIGN.md §6 C02"),
+ 'C03': dict(tech=TR,
+             text="Theorems for all real arguments: every constructor equals the documented composition and is a proper rotation; Rodrigues axis/angle reading; u_to_rod/rod_to_u mutual inverses for every proper rotation; u_to_euler never raises on a proper rotation, returns angles in range and rebuilds the matrix within 1e-6 (exact off the zeroing zones), including at and near gimbal lock.",
+             note="partial w.r.t. rounding: arccos near ±1 and the 1e-8 thresholds are decided in exact real arithmetic; the oracle checks the 1e-6 bound on the implementation.", ref="DESIGN.md §6 C03"),
+ 'C04': dict(tech="Lean 4: kernel-decided certificate check per exported table (decide +kernel) lifted to all pairs by a proved soundness theorem; hand model of the name lookup with correspondence",
+             text="For each of the 237 exported settings the kernel evaluates a Boolean check (identity, no duplicates, products with generators, spanning tree, inverses, nuniq/centring bookkeeping, Laue order, metric preservation) and Lemmas/SgSound proves that it implies closure of ALL pairs, inverses, nodup; metric preservation is lifted to every conforming real cell; all 244 names resolve (kernel-decided) and lookup factors through normalisation.",
+             note="translations snapped to 24ths (each decimal proved within 5e-7); Laue class checked by order + compatibility + metric preservation; certificates untrusted (re-checked).", ref="DESIGN.md §6 C04"),
+ 'C05': dict(tech="Lean 4 theorems about an executable model of genhkl_base/genhkl_all (sysabs translated from the AST, segment tables exported) + line-protocol correspondence on all Laue variants",
+             text="sysabs/sysabs_unique are translated from the Python AST into Lean Int functions; the traversal and orbit expansion are hand-modelled over exact rationals and tied to the code by correspondence (the model reproduces the code incl. its traversal defect). Proved: cascade normal form of sysabs, traversal soundness (cone membership), emission spec, expansion = orbit without repetition, genhkl_all = union of orbits of genhkl_unique rows.",
+             note="PARTIAL: agreement of sysabs with the operators for all hkl (T5.1) and completeness of the traversal (T5.3/T5.4) are not proved; they are covered by the brute-force search only. Known finding C05-D2 (traversal misses reflections on oblique/rhombohedral cells).", ref="DESIGN.md §6 C05"),
+ 'C06': dict(tech="as C05",
+             text="Proved about the model tied to the code by correspondence: rows sorted by non-decreasing stl, 4th column = stl of the row, min exclusive / max inclusive, rows allowed by sysabs and inside their cone, genhkl_all = union of the families of genhkl_unique rows.",
+             note="PARTIAL: 'exactly one member of every family' is proved only in the soundness direction (T5.4 cone transversality not proved); known finding C06-D2.", ref="DESIGN.md §6 C06"),
+ 'C07': dict(tech=TR + "; outer double sum hand-modelled over the exported tables",
+             text="The per-(atom,operation) summand of StructureFactor is traced from the source; the transformation law F(hR)=F(h)exp(-2πi h·t), Friedel and extinction corollaries are theorems about the sum over any operation list that is a group modulo the lattice (which C04 proves for every table).",
+             note="see evidence.obligation_names for _partial items; 6-digit thirds/sixths of the tables enter the oracle tolerance, not the theorems (snapped translations).", ref="DESIGN.md §6 C07"),
+ 'C08': dict(tech="as C07",
+             text="Theorems: StructureFactor equals the direct sum over the operations for general positions, lattice-shift invariance, linearity in occupancy, F(000) with zero ADP; the direct P1-expansion oracle with exact orbits runs on the implementation.",
+             note="see evidence.obligation_names for _partial items (special positions / isotropic-equivalent Uani may be partial).", ref="DESIGN.md §6 C08"),
+ 'C09': dict(tech=TR,
+             text="Soundness of each returned (omega, eta) under the module's own rotation matrix, omega in (-π,π], completeness (two solutions iff reachable, none otherwise), agreement of the solvers where tilts coincide, and tth/tth2 relations — theorems for all g, 2θ, tilts under explicit non-degeneracy guards; both modules.",
+             note="guards: a²+b²≠0, sin2θ≠0, g≠0 (measure-zero exclusions, stated in the theorems); the tangent case d=0 of find_omega is recorded as plain_tangent_gap.", ref="DESIGN.md §6 C09"),
+ 'C10': dict(tech=TR,
+             text="det_coor = det_coor2 on the same ray, the pixel maps back (detector_to_lab) onto the ray through the grain position for every orthonormal tilt matrix, pixel sizes ≠ 0 and non-grazing geometry; detect_tilt is a proper rotation.",
+             note="rounding not modelled.", ref="DESIGN.md §6 C10"),
+ 'C11': dict(tech="Lean 4 theorems about a hand model of the image flips (all shapes) tied by correspondence + theorems over ℝ about the traced coordinate maps",
+             text="valid_iff (exactly 8 of 81 matrices accepted by each function), inverse-mode round trips for every shape and image, pixel-map agreement with the integer closed forms, cast lemmas tying the integer model to the traced ℝ maps, mutual inverses and closed forms of xy_to_detyz/detyz_to_xy, eta/radius inverses.",
+             note="trans_orientation/image_flipping are hand-modelled (numpy transpose/flip as index maps) and tied by an exhaustive small-shape correspondence.", ref="DESIGN.md §6 C11"),
+ 'C12': dict(tech="Lean 4: exported exact tables in ℤ[√3] with kernel-decided group checks lifted to ℝ; Umis hand-modelled",
+             text="Per crystal system: permutations and rotations are groups of the stated order (integer unimodular resp. proper), ROTATIONS = rotations, pairing rot[i]·B·perm[i]=B for every conforming cell with the traced form_b_mat; Umis formula, range, and multiset invariances proved for any finite matrix group of rotations.",
+             note="rotations(5/6) are exported by snapping floats to ℚ(√3) within 1e-12; Umis is a hand model tied by correspondence.", ref="DESIGN.md §6 C12"),
+ 'C13': dict(tech=TR,
+             text="epsilon_to_b/b_to_epsilon (and the _old pair) are mutual inverses for every upper-triangular positive B0 and strains with 1+ε_ii≠0, zero strain, definition of the strain, and ubi_to_u_and_eps returns (U, ε) in laue; for tools the exact wrong value 2π(ε+I)−I is proved (known finding) with a concrete witness.",
+             note="known finding C13-TOOLS-UBI (pinned by an upstream test).", ref="DESIGN.md §6 C13"),
+ 'C14': dict(tech="Lean 4: rfl-equalities / scale laws between the traced Tools.* and Laue.* models, kernel-checked equality of exported AST hashes for the untraced identical functions",
+             text="Each of the 41 shared functions is covered by a Lean equality of the two traced models, a 2π scale law, or (31 syntactically identical definitions) equality of normalised ASTs exported on every run; completeness of the coverage list is decided in Lean.",
+             note="AST identity is decided by the exporter and compared in Lean through SHA-256 values; ubi_to_u_b is covered by the runtime comparison only; known finding C14-TOOLS-UBI.", ref="DESIGN.md §6 C14"),
+ 'C15': dict(tech="Lean 4 theorems about an exact rational hand model of multiplicity over the exported tables + exhaustive grid correspondence",
+             text="multiplicity = number of distinct images modulo the lattice (the scan is a de-duplication), bounds, lattice-shift invariance, orbit–stabiliser count·|stab| = |G| for any operation list that is a group, and soundness of the float tolerance test.",
+             note="hand model tied by correspondence (exhaustive 12³ grid × 237 settings in the thorough tier).", ref="DESIGN.md §6 C15"),
  'C16': dict(tech="Lean 4: generic analytic lemmas about the traced FormFactor + one generated norm_num obligation per table row",
              text="For each of the 94 rows a kernel-checked theorem (generated from the literal table) gives |f(0)-Z|<=0.1, f>0 on [0,2] and strict decrease on [0,inf) for all real s, through lemmas proved once about the traced FormFactor; no grid.",
              note="atomic numbers are the exporter's list; exp modelled by Real.exp.", ref="DESIGN.md §6 C16"),
+ 'C17': dict(tech="Lean 4 theorems about a hand model of CIFread/PDBread field extraction + correspondence through real files and PyCifRW",
+             text="Field-by-field extraction theorems (cell, symbol, labels, positions, adp kinds and order, occupancy default, multiplicity precedence, dispersion, block choice, PDB column slices, SCALE), remove_esd, and kernel-checked resolution of all 230 PDB symbol spellings to the intended group.",
+             note="PyCifRW's grammar, float(str) and the computed multiplicity are parameters of the model.", ref="DESIGN.md §6 C17"),
+ 'C18': dict(tech="Lean 4 theorems over ℝ (traced form_a_mat/a_to_cell) + exact hand model of the vector selection tied by correspondence",
+             text="Metric/volume of a cell built from an integer change of basis, unimodular ⇒ same lattice, exact description of what the code returns (Gram of the row-stacked matrix), volume preservation, a proved negation of the property on a concrete witness (known finding), and soundness of the selection model.",
+             note="known finding C18-ROWS (pinned by an upstream test); that successive minima form a basis is not proved (computed per input).", ref="DESIGN.md §6 C18"),
+ 'C19': dict(tech="Lean 4 refinement proof of a hand model of parameters (state machine) to a plain map spec, by induction over call histories + correspondence on random histories",
+             text="refines_dict (every history agrees with the abstract map), varied_follow_varylist, save/load round trip under the repr round-trip hypothesis, load coercion and line handling — for all histories, no length bound.",
+             note="float(str)/repr are parameters (tokens); ASCII only.", ref="DESIGN.md §6 C19"),
+ 'C20': dict(tech="Lean 4: induction over assignment histories for the switch model, kernel-decided guard-site table extracted from the AST, theorems over ℝ about the traced check functions",
+             text="switch_last_valid for every history; every listed API carries the required guard and the switch is used nowhere else (exported table); accept/reject characterisations incl. acceptance of every rotation perturbed entrywise by ≤1e-7 and rejection of clear violations.",
+             note="__debug__ modelled as true; an arbitrary 1e-3..1 perturbation can produce another rotation, so rejection is proved for specific shapes.", ref="DESIGN.md §6 C20"),
 }
 
 PENDING_REASON = "check under construction in this round (model and theorems not yet registered); see DESIGN.md §6"
